@@ -130,6 +130,44 @@ theorem regLoop_rows (units : List (Sym × UnitDef)) :
 
 /-! ### programs -/
 
+theorem run_seq (p q : Prog) (g : Globals) : run (.seq p q) g =
+    if (run p g).2.1 = true then
+      ((run q (run p g).1).1, (run q (run p g).1).2.1, (run p g).2.2 ++ (run q (run p g).1).2.2)
+    else run p g := by
+  rw [run]
+  rcases run p g with ⟨g1, ok1, ev1⟩
+  cases ok1 <;> simp
+
+theorem run_attempt (p : Prog) (g : Globals) : run (.attempt p) g =
+    ((run p g).1, true, if (run p g).2.1 = true then (run p g).2.2 else (run p g).2.2 ++ [.caught]) := by
+  rw [run]
+  rcases run p g with ⟨g1, ok1, ev1⟩
+  cases ok1 <;> simp
+
+theorem run_scope_none (units : List (Sym × UnitDef)) (body : Prog) (g : Globals)
+    (h : (init g units).2 = none) :
+    run (.scope units body) g = ((init g units).1, false, [.entered false (init g units).1]) := by
+  rw [run]
+  rcases hi : init g units with ⟨g1, oe⟩
+  rw [hi] at h
+  simp only at h
+  subst h
+  rfl
+
+theorem run_scope_some (units : List (Sym × UnitDef)) (body : Prog) (g : Globals) (e : Env)
+    (h : (init g units).2 = some e) :
+    run (.scope units body) g =
+      ((close (run body (init g units).1).1 e).1,
+       (run body (init g units).1).2.1 && (close (run body (init g units).1).1 e).2,
+       .entered true (init g units).1 :: (run body (init g units).1).2.2 ++
+         [.exited (close (run body (init g units).1).1 e).2 (close (run body (init g units).1).1 e).1]) := by
+  rw [run]
+  rcases hi : init g units with ⟨g1, oe⟩
+  rw [hi] at h
+  simp only at h
+  subst h
+  rfl
+
 /-- Every program gives back exactly the globals it started from; `__exit__` never raises;
     a symbol that resolves at the start resolves at every `use` of the run. -/
 theorem run_restored (p : Prog) : ∀ (g : Globals), WF g →
@@ -149,18 +187,11 @@ theorem run_restored (p : Prog) : ∀ (g : Globals), WF g →
   | seq p q ihp ihq =>
     intro g w
     obtain ⟨h1, h2, h3⟩ := ihp g w
-    unfold run
-    rcases hp : run p g with ⟨g1, ok1, ev1⟩
-    rw [hp] at h1 h2 h3
-    simp only at h1 h2 h3
-    subst h1
-    cases ok1 with
-    | false => exact ⟨rfl, h2, h3⟩
-    | true =>
-      obtain ⟨k1, k2, k3⟩ := ihq g1 w
-      rcases hq : run q g1 with ⟨g2, ok2, ev2⟩
-      rw [hq] at k1 k2 k3
-      simp only at k1 k2 k3 ⊢
+    rw [run_seq]
+    by_cases hok : (run p g).2.1 = true
+    · simp only [hok, if_true]
+      rw [h1]
+      obtain ⟨k1, k2, k3⟩ := ihq g w
       refine ⟨k1, ?_, ?_⟩
       · intro ok g' hm
         rcases List.mem_append.mp hm with hm | hm
@@ -170,57 +201,46 @@ theorem run_restored (p : Prog) : ∀ (g : Globals), WF g →
         rcases List.mem_append.mp hm with hm | hm
         · exact h3 s ok hr hm
         · exact k3 s ok hr hm
+    · simp only [hok]
+      exact ⟨h1, h2, h3⟩
   | attempt p ih =>
     intro g w
     obtain ⟨h1, h2, h3⟩ := ih g w
-    unfold run
-    rcases hp : run p g with ⟨g1, ok1, ev1⟩
-    rw [hp] at h1 h2 h3
-    simp only at h1 h2 h3
-    cases ok1 with
-    | true => exact ⟨h1, h2, h3⟩
-    | false =>
-      refine ⟨h1, ?_, ?_⟩
-      · intro ok g' hm
-        simp only [List.mem_append, List.mem_singleton] at hm
-        rcases hm with hm | hm
-        · exact h2 ok g' hm
-        · cases hm
-      · intro s ok hr hm
-        simp only [List.mem_append, List.mem_singleton] at hm
-        rcases hm with hm | hm
-        · exact h3 s ok hr hm
-        · cases hm
+    rw [run_attempt]
+    refine ⟨h1, ?_, ?_⟩
+    · intro ok g' hm
+      simp only at hm
+      split at hm
+      · exact h2 ok g' hm
+      · simp only [List.mem_append, List.mem_singleton, reduceCtorEq, or_false] at hm
+        exact h2 ok g' hm
+    · intro s ok hr hm
+      simp only at hm
+      split at hm
+      · exact h3 s ok hr hm
+      · simp only [List.mem_append, List.mem_singleton, reduceCtorEq, or_false] at hm
+        exact h3 s ok hr hm
   | scope units body ih =>
     intro g w
-    unfold run
     rcases init_cases g w units with ⟨hn, hg⟩ | ⟨e, hs, ha, _, _⟩
-    · rcases hi : init g units with ⟨g1, oe⟩
-      rw [hi] at hn hg
-      simp only at hn hg
-      subst hn hg
+    · rw [run_scope_none units body g hn, hg]
       simp
-    · rcases hi : init g units with ⟨g1, oe⟩
-      rw [hi] at hs ha
-      simp only at hs ha
-      subst hs
-      have w1 : WF g1 := ha.wf w
-      obtain ⟨h1, h2, h3⟩ := ih g1 w1
-      rcases hb : run body g1 with ⟨g2, ok2, ev2⟩
-      rw [hb] at h1 h2 h3
-      simp only at h1 h2 h3 ⊢
-      subst h1
-      have hc := close_added g g2 e w ha
+    · rw [run_scope_some units body g e hs]
+      have w1 : WF (init g units).1 := ha.wf w
+      obtain ⟨h1, h2, h3⟩ := ih (init g units).1 w1
+      rw [h1]
+      have hc := close_added g (init g units).1 e w ha
       rw [hc]
-      simp only
       refine ⟨rfl, ?_, ?_⟩
       · intro ok g' hm
-        simp only [List.mem_cons, List.mem_append, List.mem_singleton, reduceCtorEq, false_or] at hm
+        simp only [List.mem_cons, List.mem_append, reduceCtorEq, false_or,
+          List.not_mem_nil, or_false] at hm
         rcases hm with hm | hm
         · exact h2 ok g' hm
-        · simp only [Ev.exited.injEq] at hm; exact hm.1.symm
+        · simp only [Ev.exited.injEq] at hm; exact hm.1
       · intro s ok hr hm
-        simp only [List.mem_cons, List.mem_append, List.mem_singleton, reduceCtorEq, false_or, or_false] at hm
+        simp only [List.mem_cons, List.mem_append, reduceCtorEq, false_or,
+          List.not_mem_nil, or_false] at hm
         exact h3 s ok (resolves_ext ha.ext s hr) hm
 
 end SciVerif.C09
